@@ -1238,16 +1238,25 @@ func c18PrefixOpsRandCheck() verifsim.Check[prefixSc] {
 type scpSc struct {
 	Target int   `json:"target"` // key pool index: the 256-bit target
 	Peers  []int `json:"peers"`
+	Short  int   `json:"short,omitempty"` // n > 0: the target is cut to its first n-1 bits (a prefix, as the exported signature allows)
 }
 
 func TestVerif_C18_ShortestCovered(t *testing.T) {
 	verifsim.RunCheck(t, verifsim.Check[scpSc]{
 		Property: "C18", Part: "shortest-covered",
-		Rule: "rapid: 256-bit target (as the callers pass) and 1-40 distinct peers, clustered around the target's prefix; oracle = " +
+		Rule: "rapid: 256-bit target (as the callers pass) or, in 30% of the cases, a prefix target of 0-9 bits (half of them with every peer under it: only no-panic is asked there), and 1-40 distinct peers, clustered around the target's prefix; oracle = " +
 			"prefix target[:minCPL+1] and the peers with CPL>minCPL; non-trivial = >=3 peers with >=2 distinct CPLs",
 		Gen: func(t *rapid.T) scpSc {
 			s := scpSc{Target: rapid.IntRange(0, poolSize-1).Draw(t, "target")}
+			if verifsim.Chance(t, "short", 30) {
+				s.Short = 1 + rapid.IntRange(0, 9).Draw(t, "shortLen")
+			}
 			under := keyPool().Bits(s.Target)[:rapid.IntRange(0, 8).Draw(t, "nearBits")]
+			if s.Short > 0 && rapid.Bool().Draw(t, "allInside") {
+				// every peer under the short target
+				s.Peers = drawClustered(t, peerPool(), "ipeer", 1, 12, keyPool().Bits(s.Target)[:s.Short-1])
+				return s
+			}
 			s.Peers = drawClustered(t, peerPool(), "peer", 1, 40, "")
 			if rapid.Bool().Draw(t, "near") {
 				have := map[int]bool{}
@@ -1268,6 +1277,9 @@ func TestVerif_C18_ShortestCovered(t *testing.T) {
 				return
 			}
 			target := kp.Bits(s.Target)
+			if s.Short > 0 {
+				target = target[:s.Short-1]
+			}
 			peers := make([]peer.ID, len(s.Peers))
 			for i, idx := range s.Peers {
 				peers[i] = peer.ID(pp.IDs[idx])
@@ -1280,11 +1292,27 @@ func TestVerif_C18_ShortestCovered(t *testing.T) {
 			}
 			minCpl := 257
 			cpls := map[int]bool{}
-			for _, idx := range s.Peers {
+			cplOf := func(idx int) int {
 				c := verifsim.CPL(kp.Kad[s.Target], pp.Kad[idx])
+				if c > len(target) {
+					c = len(target)
+				}
+				return c
+			}
+			for _, idx := range s.Peers {
+				c := cplOf(idx)
 				cpls[c] = true
 				if c < minCpl {
 					minCpl = c
+				}
+			}
+			if s.Short > 0 {
+				res.Class("prefix-target")
+				if minCpl == len(target) {
+					// every peer lies under the prefix target: the documentation does not say what is covered then; no panic is all that is asked
+					res.Class("prefix-target-all-peers-inside")
+					res.NonTrivial = len(s.Peers) >= 2
+					return
 				}
 			}
 			var wantPrefix string
@@ -1295,7 +1323,7 @@ func TestVerif_C18_ShortestCovered(t *testing.T) {
 			} else {
 				wantPrefix = target[:minCpl+1]
 				for _, idx := range s.Peers {
-					if verifsim.CPL(kp.Kad[s.Target], pp.Kad[idx]) > minCpl {
+					if cplOf(idx) > minCpl {
 						want[peer.ID(pp.IDs[idx])] = true
 					}
 				}
